@@ -1,12 +1,17 @@
 import CashewsVerif.Driver.Proto
 import CashewsVerif.Model.Mem
+import CashewsVerif.Model.Lru
 import CashewsVerif.Spec.TtlMap
-/- Driver for C01 / C11: runs the same command line on the `Mem` model and the `TtlMap` spec. -/
+/- Driver for C01 / C11: runs the same command line on the `Mem` model and the `TtlMap` spec.
+For C11 it also runs the ghost-instrumented `Lru` model (same store, plus use log / eviction records /
+`gone` list) and answers the extra request words `keys`, `uselog`, `victims`, `gone`, `push`, `pop`. -/
 open CashewsVerif CashewsVerif.Proto
 
 structure St where
   mem : Mem
   spec : TtlMap
+  lru : Lru := Lru.init 1000
+  stack : List (Mem × TtlMap × Lru) := []   -- `push` / `pop`: depth-first enumeration of histories (C11)
 
 def parseKv? (s : String) : Option (Nat × Val) :=
   match s.splitOn "=" with
@@ -37,15 +42,26 @@ def step (st : St) (line : String) : St × String :=
   match words line with
   | ["case", cap] =>
     match cap.toNat? with
-    | some c => ({ mem := Mem.init c, spec := TtlMap.init }, "ok")
+    | some c => ({ mem := Mem.init c, spec := TtlMap.init, lru := Lru.init c }, "ok")
     | none => (st, "bad-op")
   | ["keys"] => (st, "keys=" ++ showKeys st.mem.store.keys)   -- store order, for C11 probes
+  -- C11 ghost observables: use log (most recent first), victims of all evictions so far (latest first),
+  -- keys that left for an accepted reason since their last use
+  | ["uselog"] => (st, "log=" ++ showKeys st.lru.log)
+  | ["victims"] => (st, "victims=" ++ showKeys (st.lru.evs.map (·.1)))
+  | ["gone"] => (st, "gone=" ++ showKeys st.lru.gone)
+  | ["push"] => ({ st with stack := (st.mem, st.spec, st.lru) :: st.stack }, "ok")
+  | ["pop"] =>
+    match st.stack with
+    | (m, t, l) :: rest => ({ mem := m, spec := t, lru := l, stack := rest }, "ok")
+    | [] => (st, "bad-op")
   | ws =>
     match parseOp? ws with
     | none => (st, "bad-op")
     | some op =>
       let (m', o) := st.mem.step op
       let (t', o') := st.spec.step op
-      ({ mem := m', spec := t' }, s!"model={showOut o} spec={showOut o'}")
+      let (l', _) := st.lru.step op
+      ({ st with mem := m', spec := t', lru := l' }, s!"model={showOut o} spec={showOut o'}")
 
 def main : IO Unit := mainLoop step { mem := Mem.init 1000, spec := TtlMap.init }
